@@ -449,6 +449,19 @@ def r6_eq_hash(rep, ctx):
                       "eq ignores %s: quantities that differ in it compare equal" % sorted(need - er), fn=e)
             rep.check(need <= hr, "C07.R6", "Quantity:hash-identity", "hash covers the composing map and the caption",
                       "hash ignores %s" % sorted(need - hr), fn=h)
+            # the composing map is ordered (unit, category and hash depend on the order): eq must compare it as a
+            # sequence, not through the set-like views of a mapping
+            for cmp_ in [x for x in own_nodes(e.node) if isinstance(x, ast.Compare) and len(x.ops) == 1 and isinstance(x.ops[0], (ast.Eq, ast.NotEq))]:
+                for side in (cmp_.left, cmp_.comparators[0]):
+                    view = isinstance(side, ast.Call) and isinstance(side.func, ast.Attribute) and side.func.attr in ("items", "keys") and any(isinstance(y, ast.Attribute) and y.attr == MAP for y in ast.walk(side.func.value))
+                    setlike = isinstance(side, ast.Call) and isinstance(side.func, ast.Name) and side.func.id in ("set", "frozenset", "sorted") and any(isinstance(y, ast.Attribute) and y.attr == MAP for y in ast.walk(side))
+                    if view or setlike:
+                        rep.bad("C07.R6", "Quantity:eq-ordered", "Quantity.__eq__ compares the composing map through `%s`, which ignores the order of the entries, while the hash, the unit and the category strings depend on it: differently ordered quantities compare equal with different hashes" % norm(ast.unparse(side))[:70], node=cmp_, fn=e)
+            # and the intern-table key of a derived request keeps the order of the entries
+            oq = m.func("ObtainQuantity")
+            for c_ in own_nodes(oq.node):
+                if isinstance(c_, ast.Call) and isinstance(c_.func, ast.Name) and c_.func.id in ("sorted", "set", "frozenset") and any(isinstance(y, ast.Call) and isinstance(y.func, ast.Attribute) and y.func.attr in ("items", "keys", "values") for y in ast.walk(c_)):
+                    rep.bad("C07.R6", "ObtainQuantity:key-ordered", "ObtainQuantity builds a cache key with `%s(...)` over the entries of a composing request: requests that differ only in the order of their factors share one cached Quantity, although unit, category and hash depend on the order" % c_.func.id, node=c_, fn=oq)
     rep.floor("C07.R6", "classes defining both __eq__ and __hash__", n, 1)
 
 
